@@ -223,7 +223,7 @@ pub fn run(tier: Tier, seed: u64) -> MonOut {
         rep.merge(r);
     }
     // random part
-    let nrand = tier.n(3_000, 100_000);
+    let nrand = tier.n(60_000, 2_000_000);
     let r = par_cases(seed ^ 0x18, nrand, |_i, rng, rep| {
         let n = if rng.chance(0.7) { rng.urange(2, 40) } else { rng.urange(40, 300) };
         let e = random_graph(rng, n);
